@@ -136,6 +136,72 @@ func c06(args []string) error {
 			}()
 		}
 	}
-	printJSON(obj{"docs": len(rows), "parses_accepted": accepted, "round_trips_recorded": trips, "events": ev.N})
+	// zeros of both signs: -0 and 0 are equal numbers with different bits; a position written as -0 comes back as -0 wherever it
+	// stands (also in the closing position of a ring whose first position has the other zero). Judged on the decoded numbers of input
+	// and output (encoding/json keeps the sign of -0), position by position.
+	zeroCases, zeroBad := 0, 0
+	zs := []string{"0", "-0", "0.0", "-0.0", "-0e0"}
+	var ztexts []string
+	for i, a := range zs {
+		for j, b := range zs {
+			ztexts = append(ztexts,
+				fmt.Sprintf(`{"type":"Polygon","coordinates":[[[%s,0],[1,0],[1,1],[%s,0]]]}`, a, b),
+				fmt.Sprintf(`{"type":"Polygon","coordinates":[[[0,%s],[1,0],[1,1],[0,1],[0,%s]]]}`, a, b),
+				fmt.Sprintf(`{"type":"Polygon","coordinates":[[[%s,%s],[1,%s],[1,1],[%s,1],[%s,%s]]]}`, a, b, b, b, b, a),
+				fmt.Sprintf(`{"type":"LineString","coordinates":[[%s,%s],[%s,%s],[%s,0]]}`, a, b, b, a, a),
+				fmt.Sprintf(`{"type":"MultiPolygon","coordinates":[[[[2,2],[3,2],[3,3],[2,2]]],[[[%s,0],[1,0],[1,1],[%s,0]],[[%s,%s],[0.5,0.25],[0.5,0.5],[%s,%s]]]]}`, a, b, a, b, b, a),
+				fmt.Sprintf(`{"type":"Feature","geometry":{"type":"MultiPoint","coordinates":[[%s,%s,%s],[%s,%s]]},"properties":{"z":[%s,%s]}}`, a, b, a, b, a, a, b))
+			_, _ = i, j
+		}
+	}
+	var nums func(v interface{}, out *[]uint64)
+	nums = func(v interface{}, out *[]uint64) {
+		switch x := v.(type) {
+		case float64:
+			*out = append(*out, math.Float64bits(x))
+		case []interface{}:
+			for _, y := range x {
+				nums(y, out)
+			}
+		}
+	}
+	coords := func(text string) []uint64 {
+		var top map[string]interface{}
+		if json.Unmarshal([]byte(text), &top) != nil {
+			return nil
+		}
+		var out []uint64
+		if g, ok := top["geometry"].(map[string]interface{}); ok {
+			nums(g["coordinates"], &out)
+		} else {
+			nums(top["coordinates"], &out)
+		}
+		return out
+	}
+	for _, text := range ztexts {
+		for oi := range c06Opts {
+			po := c06Opts[oi]
+			func() {
+				defer func() {
+					if rec := recover(); rec != nil {
+						panics.Emit(obj{"op": "panic", "text": text, "msg": fmt.Sprint(rec)})
+					}
+				}()
+				o, err := geojson.Parse(text, &po)
+				if err != nil {
+					return
+				}
+				zeroCases++
+				out := o.JSON()
+				if !reflect.DeepEqual(coords(text), coords(out)) {
+					zeroBad++
+					if zeroBad <= 40 {
+						panics.Emit(obj{"op": "zero-sign", "text": text, "msg": "the output " + out + " does not carry every ordinate bit for bit (options set " + fmt.Sprint(oi) + ")"})
+					}
+				}
+			}()
+		}
+	}
+	printJSON(obj{"zero_sign_cases": zeroCases, "zero_sign_mismatches": zeroBad, "docs": len(rows), "parses_accepted": accepted, "round_trips_recorded": trips, "events": ev.N})
 	return nil
 }
